@@ -181,7 +181,7 @@ def ghost(G, n_inputs, has_obs=None, clim=None, obs_range=False, other=False, pr
         gh.axis_vals[nm], gh.axis_uniq[nm] = vals, uniq
     d.axis_cache[verif.axis.Leadtime()] = d.axis_cache[verif.axis.Leadtimeday()]      # any lead-time axis: same mechanism
     d.axis_cache_unique[verif.axis.Leadtime()] = d.axis_cache_unique[verif.axis.Leadtimeday()]
-    _complete_from_constructor(d)
+    _complete_from_constructor(d, n_inputs, clim, has_obs, prob, other, agg)
     gh.data = d
     return gh
 
@@ -189,21 +189,37 @@ def ghost(G, n_inputs, has_obs=None, clim=None, obs_range=False, other=False, pr
 _TEMPLATE = {}
 
 
-def _complete_from_constructor(d):
-    """attributes that the real constructor sets but this ghost state does not know about (added by a later version of the
-    code, e.g. a scratch buffer initialised to None) are taken, as deep copies, from an object built by the REAL Data.__init__ on a
-    1x1x1 dataset: the ghost must not fail merely because the constructor grew an attribute"""
+def _complete_from_constructor(d, n_inputs, clim, has_obs, prob, other, agg):
+    """attributes that the real constructor sets but this ghost state does not know about (added by a later version of the code:
+    a scratch buffer initialised to None, a cached number of inputs, ...) are taken, as deep copies, from an object built by the REAL
+    Data.__init__ on a 1x1x1 dataset with the same number of inputs, the same climatology mode and the same -T settings: the
+    ghost must not fail merely because the constructor grew an attribute.  (An attribute that depends on the array extents or
+    contents would still be wrong here; none exists today.)"""
     import copy
+    import contextlib
+    import io
     import verif.location
-    key = id(verif.data.Data.__init__)
+    key = (id(verif.data.Data.__init__), n_inputs, clim, tuple(has_obs), bool(prob), bool(other), agg)
     if key not in _TEMPLATE:
         try:
-            si = StubInput("tmpl", _np.zeros([1, 1, 1]), _np.zeros([1, 1, 1]))
-            si.times, si.leadtimes = _np.array([0.0]), _np.array([0.0])
-            si.locations = [verif.location.Location(0, 0, 0, 0)]
-            import contextlib, io
+            def tiny(name, with_obs):
+                pr = None
+                if prob:
+                    pr = {"pit": _np.zeros([1, 1, 1]), "ens": _np.zeros([1, 1, 1, 2]), "cdf": _np.zeros([1, 1, 1, len(STORED_THRESHOLDS)]),
+                          "x": _np.zeros([1, 1, 1, len(STORED_QUANTILES)])}
+                si = StubInput(name, _np.zeros([1, 1, 1]) if with_obs else None, _np.zeros([1, 1, 1]), {"aux": _np.zeros([1, 1, 1])} if other else {}, pr)
+                si.times, si.leadtimes = _np.array([0.0]), _np.array([0.0])
+                si.locations = [verif.location.Location(0, 0, 0, 0)]
+                return si
+            ins = [tiny("tmpl%d" % i, has_obs[i]) for i in range(n_inputs)]
+            kw = {}
+            if clim:
+                kw["clim"], kw["clim_type"] = tiny("tmplclim", has_obs[-1]), clim
+            if agg:
+                kw["dim_agg_length"] = 1
+                kw["dim_agg_axis"] = verif.axis.Leadtime() if agg == "leadtime" else verif.axis.Time()
             with contextlib.redirect_stdout(io.StringIO()):
-                _TEMPLATE[key] = dict(verif.data.Data([si]).__dict__)
+                _TEMPLATE[key] = dict(verif.data.Data(ins, **kw).__dict__)
         except BaseException:
             _TEMPLATE[key] = {}
     for k, v in _TEMPLATE[key].items():
@@ -1141,6 +1157,16 @@ for _n in (1, 2):
 # ----------------------------------------------------------------------------------------------
 # thresholds / quantiles / fields common to all inputs (used by the driver's defaults and by get_p requests)
 # ----------------------------------------------------------------------------------------------
+def _built(inputs):
+    """a dataset built by the REAL constructor from 1x1x1 stub inputs"""
+    import verif.location
+    for si in inputs:
+        si.times, si.leadtimes = _np.array([0.0]), _np.array([0.0])
+        si.locations = [verif.location.Location(0, 0, 0, 0)]
+    with contextlib.redirect_stdout(io.StringIO()):
+        return verif.data.Data(list(inputs))
+
+
 def _common_levels():
     from .axis import _enumerated
 
@@ -1149,24 +1175,22 @@ def _common_levels():
         combos = [([0.5, 2.0, 1.0], [1.0, 0.5]), ([], [1.0]), ([3.0], [3.0]), ([1.0, 2.0], [3.0]), ([2.0, 1.0], [2.0, 1.0, 0.0])]
         for a, b in combos:
             for n_in in (1, 2):
-                d = object.__new__(verif.data.Data)
                 ins = []
                 for k, lv in enumerate((a, b)[:n_in]):
                     si = StubInput("in%d" % k, _np.zeros([1, 1, 1]), _np.zeros([1, 1, 1]))
                     si.thresholds = _np.array(lv)
                     si.quantiles = _np.array([x / 10.0 for x in lv])
                     ins.append(si)
-                d._inputs = ins
+                d = _built(ins)
                 want = sorted(set(a) & set(b)) if n_in == 2 else sorted(set(a))
                 cases += 1
                 got_t, got_q = list(d._get_thresholds()), list(d._get_quantiles())
                 if got_t != want or got_q != [x / 10.0 for x in want]:
                     return cases, {"input-thresholds": [a, b][:n_in], "got": got_t, "want": want, "quantiles": got_q}
         # fields common to all inputs
-        d = object.__new__(verif.data.Data)
         i0 = StubInput("a", _np.zeros([1, 1, 1]), _np.zeros([1, 1, 1]), {"aux": _np.zeros([1, 1, 1])})
         i1 = StubInput("b", None, _np.zeros([1, 1, 1]))
-        d._inputs = [i0, i1]
+        d = _built([i0, i1])
         cases += 1
         got = sorted(type(f).__name__ for f in d.get_fields())
         if got != ["Fcst"]:
